@@ -155,6 +155,10 @@ fn c20_nonzero_defaults() {
     assert!(matches!(v.as_ref(), UEnumDRef::Idle), "C20: default variant is not the one marked #[default]");
     assert!(v.size() == 2, "C20: size() is not minimal");
     assert!(UEnumD::validate(v.as_bytes()).is_ok(), "C20: default value does not validate");
+    let mut back3: [u8; 8] = kani::any();
+    kani::assume((back3.as_ptr() as usize) % 8 == 0);
+    let v = UEnumAttr::default_in_place(&mut back3[..4]).unwrap();
+    assert!(matches!(v.as_ref(), UEnumAttrRef::Idle), "C20: default variant is not the one marked #[default]");
 }
 
 // ---- probes that need a particular shape rather than a large input
@@ -299,4 +303,73 @@ fn c04_uwide_layout() {
     assert!(m[1] == 0xEE && m[3] == 0xEE && m[9] == 0xEE && m[15] == 0xEE && m[20] == 0xEE && m[23] == 0xEE, "C14: padding bytes were written");
     assert!(back[7] == 0xEE && back[48] == 0xEE, "C14: bytes outside the slice were written");
     assert!(UWide::validate(m).is_ok(), "C03: emplaced value does not validate");
+}
+
+
+/// C05 / C12: size() follows the offset chain, not the items' current sizes: after an already sealed item has been shrunk in
+/// place the extent is unchanged, and the first size() bytes still re-map to the same sequence
+#[kani::proof]
+#[kani::unwind(12)]
+fn c05_flex_size_after_item_shrink() {
+    type V = FlexVec<FlatVec<u8, u8>, u8>;
+    let mut back = [0u8; 24];
+    let (a, b, c): (u8, u8, u8) = (kani::any(), kani::any(), kani::any());
+    let size = {
+        let v = V::default_in_place(&mut back[..16]).unwrap();
+        v.push(flat_vec![a, b]).unwrap();
+        v.push(flat_vec![c]).unwrap();
+        assert!(v.size() == 7, "C05: size() differs from the reference extent");
+        {
+            let first = v.iter_mut().next().unwrap();
+            assert!(first.pop() == Some(b), "C12: item read-back differs from the model");
+        }
+        assert!(v.len() == 2, "C12: reported length differs from the model");
+        v.size()
+    };
+    assert!(size == 7, "C05: size() differs from the reference extent after an in-place edit of a sealed item");
+    let w = V::from_bytes(&back[..size]).unwrap();
+    assert!(w.len() == 2, "C05,C12: the first size() bytes do not re-map to the same sequence");
+    let mut it = w.iter();
+    let x = it.next().unwrap();
+    assert!(x.len() == 1 && x[0] == a, "C05,C12: the first size() bytes do not re-map to the same sequence");
+    let y = it.next().unwrap();
+    assert!(y.len() == 1 && y[0] == c, "C05,C12: the first size() bytes do not re-map to the same sequence");
+}
+
+/// C02 / C19: FlatVec of a sized struct whose alignment (4) exceeds the length type's size (1): the items start at
+/// DATA_OFFSET = max(size_of L, align_of T), and validation accepts exactly the images whose items are valid there
+#[kani::proof]
+#[kani::unwind(8)]
+fn c02_vec_of_sbool_u8() {
+    let back: [u8; 32] = kani::any();
+    kani::assume((back.as_ptr() as usize) % 4 == 0);
+    // 4 bytes header (length @0, padding), capacity 2 items of 12 bytes: x @0, flag @2, arr @3..5, y @8
+    let b = &back[..28];
+    let len = b[0] as usize;
+    let item_ok = |o: usize| b[o + 2] <= 1 && b[o + 3] <= 1 && b[o + 4] <= 1;
+    let want = len <= 2 && (len < 1 || item_ok(4)) && (len < 2 || item_ok(16));
+    let r = FlatVec::<SBool, u8>::validate(b);
+    assert!(r.is_ok() == want, "C02: acceptance differs from the reference decoder");
+    if let Err(e) = r {
+        if len <= 2 {
+            // a content error: reported at the first offending byte
+            let first_bad = if !(len < 1 || item_ok(4)) { 4 } else { 16 };
+            let o = first_bad;
+            let at = if b[o + 2] > 1 { o + 2 } else if b[o + 3] > 1 { o + 3 } else { o + 4 };
+            assert!(e.kind == ErrorKind::InvalidData && e.pos == at, "C19: content error not reported at the offending byte");
+        }
+    }
+    if let Ok(v) = FlatVec::<SBool, u8>::from_bytes(b) {
+        assert!(v.len() == len && v.capacity() == 2, "C02: view inconsistent with what was validated");
+    }
+}
+
+/// C15 / C11: an array with more items than the length type can count is refused, however large the buffer
+#[kani::proof]
+#[kani::unwind(260)]
+fn c15_vec_u8_u8_from_array_over_lmax() {
+    let mut back = [0u8; 320];
+    let x: u8 = kani::any();
+    let r = FlatVec::<u8, u8>::new_in_place(&mut back[..300], flatty::vec::FromArray([x; 256])).map(|v| v.len());
+    assert!(matches!(r, Err(ref e) if e.kind == ErrorKind::InsufficientSize), "C15,C03,C11: content that does not fit is not refused with InsufficientSize");
 }
